@@ -98,7 +98,7 @@ def behaviours(r):
     return out
 
 
-def replay(wd, name, sb, cases, variant="os", trace=True, timeout=3000):
+def replay(wd, name, sb, cases, variant="os", trace=True, timeout=3000, wrapper=None):
     """Run the harness `frag` role over `cases`; returns (results, trace path)."""
     tr = os.path.join(wd, name + ".trace.ndjson")
     if os.path.exists(tr):
@@ -109,7 +109,7 @@ def replay(wd, name, sb, cases, variant="os", trace=True, timeout=3000):
     if trace:
         env["IPC_VERIF_TRACE"] = tr
     stdin = "\n".join(json.dumps(c) for c in cases) + "\n"
-    p = run_harness(variant, ["frag"], env=env, stdin=stdin, timeout=timeout)
+    p = run_harness(variant, ["frag"], env=env, stdin=stdin, timeout=timeout, wrapper=wrapper)
     results = []
     for line in p.stdout.splitlines():
         line = line.strip()
